@@ -10,8 +10,9 @@ field_types("cascade.executor.executor:Executor", workers="dict[WorkerId, ProcHa
 
 @spec
 def bad(code):
-    # a child has died abnormally: exit code present and non-zero
-    return code is not None and code != 0
+    # a child has died: it has an exit code at all (children are only stopped by terminate(), which ends the loop that
+    # calls healthcheck - so also a clean exit, e.g. sys.exit(0) inside a task body, is a death as far as the run goes)
+    return code is not None
 
 
 @assumed("cascade.executor.comms:GraceWatcher.is_breach")
